@@ -15,7 +15,7 @@ Terms:  ('lit', v) ('param', name) ('const', def) ('fn', def) ('ctor', Variant, 
 """
 from facts import callee_of, call_args, loc
 import re
-import hirq
+import hirq, cloneid
 import facts as facts_mod
 
 MAX_PATHS = 4000
@@ -2171,6 +2171,11 @@ def builtin_summary(I, cal, args, node, st):
         if name == 'clone' and node.get('k') == 'MethodCall' and hirq.strip_refs(node['recv'].get('ty', '')).startswith('ldap3::') \
                 and hirq.strip_refs(node['recv'].get('ty', '')).split('<')[0] in ('ldap3::ldap::Ldap',):
             # a cloned handle is a distinct object: stores to its fields must not alias the original
+            return [Out('val', ('call', cal, tuple(args), node.get('id')), st.event(('call', cal, tuple(args), node)))]
+        if name in cloneid.CLONING_METHODS and cloneid.call_why(I.facts, cal, node) is not None:
+            # `x.clone()` is `x` only for a type whose Clone is a faithful copy; that is decided from the workspace's Clone impls
+            # (cloneid): a type with a hand-written Clone that answers something else - or one that contains such a type by value -
+            # yields a value of its own, distinct from its receiver
             return [Out('val', ('call', cal, tuple(args), node.get('id')), st.event(('call', cal, tuple(args), node)))]
         return [Out('val', args[0], st)]
     if (is_opt or is_res) and name in (('expect', 'unwrap') if I.combinators else ('expect', 'unwrap', 'unwrap_or_default')) and args:
